@@ -145,13 +145,15 @@ def km_field(par, sv, x, y, res):
     """phi(x, y) = f^y(x) * Gaussian(y; sigma(x)) * res^2 for x > 0, else 0 (x upwind, y crosswind)."""
     m, n, U, kappa, r, mu, xi = par
     out = np.zeros_like(x, dtype=float)
-    up = x > 0
+    # exp(-xi/x) underflows to exactly 0 below x = xi/745: those cells are 0 (and their sigma may underflow too)
+    up = x > xi / 745.0
     xu = x[up]
     with np.errstate(all="ignore"):
-        fy = np.exp(mu * np.log(xi) - (1 + mu) * np.log(xu) - xi / xu - sp.gammaln(mu))
         ubar = sp.gamma(mu) / sp.gamma(1 / r) * (r * r * kappa / U) ** (m / r) * U * xu ** (m / r)
         sig = sv * xu / ubar
-        out[up] = fy * np.exp(-y[up] ** 2 / (2 * sig**2)) / (math.sqrt(2 * math.pi) * sig) * res**2
+        logphi = (mu * np.log(xi) - (1 + mu) * np.log(xu) - xi / xu - sp.gammaln(mu)
+                  - y[up] ** 2 / (2 * sig**2) - np.log(math.sqrt(2 * math.pi) * sig) + 2 * math.log(res))
+        out[up] = np.exp(logphi)
     return out
 
 
